@@ -1,0 +1,15 @@
+// SPDX-FileCopyrightText: 2026 The Pion community <https://pion.ly>
+// SPDX-License-Identifier: MIT
+
+//go:build verif && !js
+
+package webrtc
+
+// Verification hook for the concurrent-use scenarios (C40).
+
+// VerifICEGatherer returns the PeerConnection's ICEGatherer (set once in NewPeerConnection and never
+// replaced), so that its public getters and handler setters can be called next to the other
+// transports' (which are reachable through SCTP().Transport().ICETransport()).
+func VerifICEGatherer(pc *PeerConnection) *ICEGatherer {
+	return pc.iceGatherer
+}
